@@ -61,7 +61,9 @@ Definition tag_id (t : tag) : N :=
 Definition is_parent (sp : spec) (cur test : N) : bool :=
   existsb (fun p => match p with PId i => i =? test | PGlobal _ _ => false end) (get_path sp cur).
 
+(* only ids the specification knows can be siblings (an unknown id reports the empty path) *)
 Definition is_sibling (sp : spec) (cur test : N) : bool :=
+  match get_type sp test with Some _ => true | None => false end &&
   list_eqb part_eqb (get_path sp cur) (get_path sp test).
 
 Definition is_root (sp : spec) (test : N) : bool :=
